@@ -187,8 +187,9 @@ class HierProx(SxContract):
                 yield f"row{r}: complementary slackness[{j}]", prove.eq((au - at) * (at - bound), 0)
                 yield f"row{r}: sign(theta[{j}]) = sign(u[{j}])", prove.rel(t * u, "+0")
                 lam.append(au - at)
-            for j in range(1, self.k):
-                yield f"row{r}: beta colinear with v [{j}]", prove.eq(beta[r, j] * V[r, 0], beta[r, 0] * V[r, j])
+            for i in range(self.k):
+                for j in range(i + 1, self.k):
+                    yield f"row{r}: beta colinear with v [{i},{j}]", prove.eq(beta[r, i] * V[r, j], beta[r, j] * V[r, i])
             for j in range(self.k):
                 yield f"row{r}: beta[{j}] same direction as v[{j}]", prove.rel(beta[r, j] * V[r, j], "+0")
             sl = sum(lam[1:], lam[0])
@@ -280,6 +281,53 @@ def _group_hier_native(self, env, inp):
 
 
 GroupHierProx.native = _group_hier_native
+
+
+# lemma L4 / L5 (lean/Prox.lean): hypotheses of `hier_certificate_min` <-> clause families of HierProx.ensures
+L5_HYPOTHESES = {"hF": "feasible |theta[", "hΛ": "lambda[", "hCS": "complementary slackness[", "hSG": "sign(theta[",
+                 "hcol": "beta colinear with v [", "hdir": "] same direction as v[", "hST0/hST1": "stationarity (beta"}
+LEAN_LEMMAS = ["gl_zero_min", "gl_zero_unique", "gl_shrink_val", "gl_shrink_min", "gl_shrink_unique", "gl_unique_min",
+               "hier_term", "hier_kkt_min", "inner_of_colinear", "hier_certificate_min"]
+
+
+def lemma_links(obs):
+    """the hypotheses of the Lean theorems are exactly the clauses discharged on the real code: for every explored
+    mlp_prox_grad shape every hypothesis family of hier_certificate_min has a PROVED clause (hcol only when k >= 2), and
+    the Lean statement still carries these hypotheses; for linear_prox_grad the closed form compared with is specs.prox.group_lasso_row,
+    whose two branches are the two branches of ProxSpec.glProx."""
+    import re
+    out = []
+    text = open(os.path.join(ROOT, "lean", "Prox.lean")).read()
+    m = re.search(r"theorem hier_certificate_min(.*?):=", text, re.S)
+    stmt = m.group(1) if m else ""
+    want = ["(hF : ∀ j, 0 ≤ M * ‖β‖ - |θ j|)", "(hΛ : ∀ j, 0 ≤ |u j| - |θ j|)", "(hCS : ∀ j, (|u j| - |θ j|) * (|θ j| - M * ‖β‖) = 0)",
+            "(hSG : ∀ j, 0 ≤ θ j * u j)", "(hcol : ∀ i j, β i * v j = β j * v i)", "(hdir : ∀ j, 0 ≤ β j * v j)",
+            "(hST0 : ‖β‖ = 0 → ‖v‖ - α + M * ∑ j, (|u j| - |θ j|) ≤ 0)", "(hST1 : ‖β‖ ≠ 0 → ‖β‖ - ‖v‖ + α - M * ∑ j, (|u j| - |θ j|) = 0)"]
+    hyps = re.findall(r"\((h\w+|hΛ) :", stmt)
+    ok = all(w in stmt for w in want) and len(hyps) == len(want)
+    out.append(Ob("lean-link: hier_certificate_min has exactly the eight certificate hypotheses", PROVED if ok else UNDECIDED, "text-match", "P",
+                  {"hypotheses": hyps}, fn="specs.prox"))
+    m = re.search(r"def glProx.*?:=(.*)", text)
+    ok = bool(m) and m.group(1).strip() == "if ‖w‖ ≤ α then 0 else (1 - α / ‖w‖) • w"
+    import inspect
+    src = inspect.getsource(spec.group_lasso_row)
+    ok = ok and "if nw <= alpha:" in src and "return [0 * x for x in w]" in src and "return [(1 - alpha / nw) * x for x in w]" in src
+    out.append(Ob("lean-link: ProxSpec.glProx is the closed form specs.prox.group_lasso_row compares the code with", PROVED if ok else UNDECIDED,
+                  "text-match", "P", {}, fn="specs.prox"))
+    labels = sorted({o.name.split(":")[0] for o in obs if o.name.startswith("mlp_prox_grad[")})
+    for lab in labels:
+        k = int(re.search(r"k=(\d+)", lab).group(1))
+        mine = [o for o in obs if o.name.startswith(lab + ":")]
+        miss = []
+        for hyp, fam in L5_HYPOTHESES.items():
+            if hyp == "hcol" and k < 2:
+                continue
+            got = [o for o in mine if fam in o.name]
+            if not got or any(o.status != PROVED for o in got):
+                miss.append(hyp)
+        out.append(Ob(f"lean-link: {lab} discharges every hypothesis of hier_certificate_min", PROVED if not miss else UNDECIDED, "text-match", "P",
+                      {"missing or not proved": miss}, fn="gemclus.sparse._prox_grad.mlp_prox_grad"))
+    return out
 
 
 def task(kind, args, seed=0):
